@@ -179,3 +179,77 @@ func VerifC17_Open() {
 }
 
 var _ = io.EOF
+
+func verifCDCmd(start, count uint32) []byte {
+	cmd := make([]byte, 16)
+	cmd[0], cmd[1] = 0x12, 0x26
+	verifPut32(cmd[4:], start)
+	verifPut32(cmd[8:], count)
+	return cmd
+}
+
+// A session on one open image: sector read, optionally another kind of read that moves the file
+// position, sector read again. Every sector read is answered from the sectors it names, whatever
+// the connection did before (the state is built by the real open, not by the harness).
+func VerifC17_Sequence() {
+	size := verifrt.Int64("size")
+	verifrt.Assume(size >= 0x200000)
+	verifrt.Assume(size <= 0x35000000)
+	cand := [2]int{2048, 2448}[verifrt.Choice("cand", 2)]
+	for _, S := range verifSectorSizes {
+		if S != cand {
+			verifrt.Assume(!verifHasSig(S, 0))
+			verifrt.Assume(!verifHasSig(S, 1))
+		}
+	}
+	verifrt.Assume(verifHasSig(cand, 0))
+	led := &verifstub.Ledger{}
+	img := &verifstub.File{Label: "cd", Size: size}
+	fsys := &verifstub.Fs{L: led, Entries: []*verifstub.Entry{{Path: "/psx.bin", File: img}}}
+	h := &Handler{Fs: fsys, Copier: copier.NewPooledCopier(2048)}
+	srv := verifServer(h)
+	conn := &verifstub.Conn{}
+	ctx := server.VerifNewContext[State](conn)
+	step := func(req []byte) error {
+		conn.In = append(conn.In, req...)
+		conn.Out = nil
+		return srv.VerifStep(ctx)
+	}
+	verifrt.Assert(step(verifPathCmd(0x1224, "/psx.bin")) == nil && ctx.State.CDSectorSize == cand, "seq.open")
+	S := int64(cand)
+	inRange := func(s uint32) bool { return 24+int64(s)*S+2048 <= size }
+	s1 := verifrt.Uint32("start1")
+	verifrt.Assume(inRange(s1))
+	verifrt.Assert(step(verifCDCmd(s1, 1)) == nil && len(conn.Out) == 2048, "seq.first-read")
+	between := verifrt.Choice("between", 4)
+	switch between {
+	case 1, 2:
+		off := verifrt.Uint64("mid.off")
+		verifrt.Assume(off < 1<<40)
+		op := uint16(0x1225)
+		if between == 2 {
+			op = 0x1227
+		}
+		_ = step(verifReadCmd(op, 2, off))
+		if ctx.State.ROFile == nil {
+			return
+		}
+		if op == 0x1225 && int64(off)+2 > size {
+			return // unsatisfiable critical read: the connection has ended
+		}
+	case 3:
+		s := verifrt.Uint32("mid.start")
+		verifrt.Assume(inRange(s))
+		verifrt.Assert(step(verifCDCmd(s, 1)) == nil, "seq.middle-sector-read")
+	}
+	s2 := verifrt.Uint32("start2")
+	verifrt.Assume(inRange(s2))
+	err := step(verifCDCmd(s2, 1))
+	verifrt.Assert(err == nil && len(conn.Out) == 2048, "seq.second-read")
+	if len(conn.Out) == 2048 {
+		j := verifrt.Int("j")
+		verifrt.Assume(j >= 0)
+		verifrt.Assume(j < 2048)
+		verifrt.Assert(conn.Out[j] == verifrt.ByteAt("cd", 24+int64(s2)*S+int64(j)), "seq.second-read-bytes")
+	}
+}
